@@ -199,6 +199,38 @@ def s6(chk: Check, proj: Project, w) -> None:
            "the attributes of the component being processed are popped (with a default) unconditionally at the start of each iteration" if okp else
            f"the attributes handed to the renderer are not re-read unconditionally in each iteration ({whyp}): a component for which the parent recorded nothing (e.g. one the HTML parser could not see) inherits the attributes of the component processed just before it, so its roots carry a foreign id")
 
+    # hand-over renderer -> attribute step: the inherited list arrives unchanged
+    km = proj.mod("component")
+    rs = [(q, fn) for q, fn in sorted(km.defs.items()) if isinstance(fn, ast.FunctionDef) and "root_attributes" in params(fn) and calls(fn, "set_component_attrs_for_js_and_css")]
+    if not rs:
+        raise AnalysisError("anchor vanished: renderer(root_attributes) calling set_component_attrs_for_js_and_css")
+    for q, fn in rs:
+        chk.analysed(fkey(km, fn))
+        for c in calls(fn, "set_component_attrs_for_js_and_css"):
+            val = next((k.value for k in c.keywords if k.arg == "root_attributes"), None)
+            bad = None
+            if not (isinstance(val, ast.Name) and val.id == "root_attributes"):
+                bad = (c, f"the call passes `root_attributes={short(val) if val is not None else '<nothing>'}`, not the list the parent handed down")
+            for x in ast.walk(fn):
+                if bad:
+                    break
+                tg = []
+                if isinstance(x, ast.Assign):
+                    tg = x.targets
+                elif isinstance(x, (ast.AugAssign, ast.AnnAssign)):
+                    tg = [x.target]
+                elif isinstance(x, ast.Delete):
+                    tg = x.targets
+                for t in tg:
+                    for y in ast.walk(t):
+                        if isinstance(y, ast.Name) and y.id == "root_attributes":
+                            bad = (x, f"`{short(x)}` replaces or cuts the inherited list before it is applied")
+                if isinstance(x, ast.Call) and isinstance(x.func, ast.Attribute) and isinstance(x.func.value, ast.Name) and x.func.value.id == "root_attributes" and x.func.attr in ("pop", "clear", "remove", "sort", "reverse", "insert"):
+                    bad = (x, f"`{short(x)}` mutates the inherited list before it is applied")
+            chk.ob("S6", f"component:{q.split('.')[-2] if '.' in q else q}.renderer:inherited-attributes-handed-over-unchanged", km.loc(bad[0]) if bad else km.loc(c), bad is None,
+                   "the renderer passes the `root_attributes` it received to set_component_attrs_for_js_and_css without reassigning, cutting or mutating it" if bad is None else
+                   f"{bad[1]}: in a chain of components that are each other's root (every level's root is the next component) the ids of the outer instances that were dropped are missing from the shared root element although Component.id reports them - at any depth the cut can reach")
+
 
 _FIXTURE_DEEPCOPY = "import copy\ndef snap(ctx_dict):\n    return copy.deepcopy(ctx_dict['forloop'])\n"
 
